@@ -6,7 +6,7 @@ From Coq Require Import List String NArith ZArith Bool.
 From SV Require Import Bin.LE Bin.Struct Bin.StructProofs Bin.RLE Bin.RLEProofs Bin.FindInsert Bin.FindInsertProofs
   Fmt.BspFormatsSpec Fmt.BspFormatsProofs Fmt.BspVisRow Fmt.BspVisRowProofs Fmt.BspTexStrings Fmt.BspTexStringsProofs
   Fmt.BspRecords Fmt.BspRecordsProofs Fmt.VmfText Fmt.BspEntLump Fmt.BspEntLumpProofs Fmt.BspDedup Fmt.BspDedupProofs Fmt.BspFlagSplit Fmt.BspFlagSplitProofs
-  Fmt.BspOverlayRec Fmt.BspOverlayRecProofs Fmt.BspWorklist Fmt.BspWorklistProofs Fmt.BspPhys Fmt.BspPhysProofs Bin.BspDeferred Bin.BspDeferredProofs Fmt.BspSpriteDict Fmt.BspSpriteDictProofs.
+  Fmt.BspOverlayRec Fmt.BspOverlayRecProofs Fmt.BspWorklist Fmt.BspWorklistProofs Fmt.BspPhys Fmt.BspPhysProofs Bin.BspDeferred Bin.BspDeferredProofs Fmt.BspSpriteDict Fmt.BspSpriteDictProofs Fmt.BspSaveOrder Fmt.BspSaveOrderProofs.
 Import ListNotations.
 
 (** * struct: unpack inverts pack for every format and every fitting record *)
@@ -387,3 +387,29 @@ Theorem c11_sprite_dict_swapped_refuted :
   sprite_dict_ok ("<8f", "<8f")%string [("S", ["a.0"; "a.1"; "b.0"; "b.1"], ["b.0"; "b.1"; "a.0"; "a.1"])]%string = false /\
   sprite_dict_ok ("<4f", "<4f")%string [("S", ["a.0"; "a.1"; "b.0"; "b.1"], ["a.0"; "a.1"; "b.0"; "b.1"])]%string = true.
 Proof. exact sprite_dict_swapped_refuted. Qed.
+
+(** * Round 4: references across lumps - the whole save() pass *)
+(** save() as a sequence of work-list writers over one table per lump ([msave]).  If every reference goes to the writer's
+    own lump or to a lump rebuilt later ([forward]), then after all writers ran: the lists only grew, lists of lumps outside
+    the order are untouched, and for every lump of the order every list entry has exactly one record at its own index and
+    every index stored in a record resolves - in the FINAL list of its target lump - to the object referred to. *)
+Theorem c11_save_closure : forall refs fuel order T R T' R', NoDup order -> forward refs order -> tinv T ->
+  msave refs fuel order T R = (T', R', true) ->
+  tinv T' /\ text T T' /\ (forall M, ~ In M order -> T' M = T M /\ R' M = R M) /\
+  forall L, In L order -> map fst (R' L) = items (T' L) /\ Forall (rec_ok refs L T') (R' L).
+Proof. exact msave_closure. Qed.
+(** Composed with the objects read from the source: LUMP_REBUILD_ORDER and the (writer, owner) append edges pass [order_ok];
+    then for ANY reference structure that stays within those edges (lumps identified with their positions in the order) and
+    any initial lists the closure statement holds for every lump. *)
+Theorem c11_save_cross_reference_closure : forall refs order edges fuel T R T' R',
+  order_ok order edges = true -> respects refs order edges -> tinv T ->
+  msave refs fuel (seq 0 (List.length order)) T R = (T', R', true) ->
+  forall L, (L < List.length order)%nat -> map fst (R' L) = items (T' L) /\ Forall (rec_ok refs L T') (R' L).
+Proof. exact save_cross_reference_closure. Qed.
+(** A reference to a lump rebuilt EARLIER: lump 0 is written first (empty), then object 5 of lump 1 refers to the unlisted
+    object 9 of lump 0 - it is appended to list 0 and gets index 0, but list 0 has no record. *)
+Theorem c11_save_backward_reference_refuted :
+  let T0 : tables := fun L => if Nat.eqb L 1 then fi_init [5%N] else fi_init [] in
+  let '(T', R', ok) := msave refs_back 5 [0; 1]%nat T0 (fun _ => []) in
+  ok = true /\ items (T' 0%nat) = [9%N] /\ R' 0%nat = [] /\ R' 1%nat = [(5%N, [(0, 0)]%nat)].
+Proof. exact msave_backward_refuted. Qed.
